@@ -348,13 +348,19 @@ inline void fpctl_set(const FpCtl& c) {
 }
 inline FpCtl& saved_fpctl() { static FpCtl c; return c; }
 
+// The body runs in its own non-inlined function: GCC and clang compile a function that calls setjmp (returns_twice)
+// very conservatively, and a body inlined into guarded_call would be shielded from exactly the reorderings and
+// merges a library defect may depend on.  run_body<F> is an ordinary function.
+template<class F>
+__attribute__((noinline)) void run_body(F& f) { f(); }
+
 template<class F>
 __attribute__((noinline)) bool guarded_call(F&& f) {
     TrapCtx& t = trap();
     saved_fpctl() = fpctl_get();
     if (sigsetjmp(t.env, 0) == 0) {
         t.armed = 1;
-        f();
+        run_body(f);
         t.armed = 0;
         return true;
     }
@@ -421,6 +427,12 @@ inline const char* round_name(int r) {
                  case FE_UPWARD: return "up"; case FE_TOWARDZERO: return "zero"; default: return "?"; }
 }
 static const int ROUND_MODES[4] = {FE_TONEAREST, FE_DOWNWARD, FE_UPWARD, FE_TOWARDZERO};
+// builds without -frounding-math (variant dfp) must not change the rounding mode: the compiler is then entitled to assume round-to-nearest
+#ifdef VK_DEFAULT_FP
+static const int VK_NMODES = 1;
+#else
+static const int VK_NMODES = 4;
+#endif
 
 //=====================================================================
 // main scaffolding
